@@ -33,7 +33,8 @@ type IPeerSet interface {
 // We also track how many peers per IP range and avoid too many
 type PeerSet struct {
 	mtx    sync.Mutex
-	lookup map[string]*peerSetItem
+	lookup map[string]*peerSetItem // by peer key
+	byAddr map[string]*peerSetItem // by announced listen address (peer-supplied: must never shadow a key)
 	list   []*Peer
 }
 
@@ -45,6 +46,7 @@ type peerSetItem struct {
 func NewPeerSet() *PeerSet {
 	return &PeerSet{
 		lookup: make(map[string]*peerSetItem),
+		byAddr: make(map[string]*peerSetItem),
 		list:   make([]*Peer, 0, 256),
 	}
 }
@@ -52,13 +54,17 @@ func NewPeerSet() *PeerSet {
 // callers must make sure it's thread-safe.
 func (ps *PeerSet) _lookUpMapAdd(peer *Peer, item *peerSetItem) {
 	ps.lookup[peer.Key] = item
-	ps.lookup[peer.ListenAddr] = item
+	if _, taken := ps.byAddr[peer.ListenAddr]; !taken {
+		ps.byAddr[peer.ListenAddr] = item
+	}
 }
 
 // callers must make sure it's thread-safe.
 func (ps *PeerSet) _lookUpMapDel(peer *Peer) {
 	delete(ps.lookup, peer.Key)
-	delete(ps.lookup, peer.ListenAddr)
+	if item := ps.byAddr[peer.ListenAddr]; item != nil && item.peer == peer {
+		delete(ps.byAddr, peer.ListenAddr)
+	}
 }
 
 // Returns false if peer with key (PubKeyEd25519) is already in set
@@ -82,6 +88,9 @@ func (ps *PeerSet) Has(peerKey string) bool {
 	ps.mtx.Lock()
 	defer ps.mtx.Unlock()
 	_, ok := ps.lookup[peerKey]
+	if !ok {
+		_, ok = ps.byAddr[peerKey]
+	}
 	return ok
 }
 
@@ -89,6 +98,9 @@ func (ps *PeerSet) Get(peerKey string) *Peer {
 	ps.mtx.Lock()
 	defer ps.mtx.Unlock()
 	item, ok := ps.lookup[peerKey]
+	if !ok {
+		item, ok = ps.byAddr[peerKey]
+	}
 	if ok {
 		return item.peer
 	}
